@@ -627,3 +627,9 @@ CHECKS["C14"]["status"] += ("; a task whose body disposes the scope it was spawn
 # a context lookup made while a scope is torn down (by a cleanup) belongs to C16 and to C11 ("without corruption")
 CHECKS["C16"]["classes"] = CHECKS["C16"]["classes"] + ["context-in-teardown"]
 CHECKS["C11"]["classes"] = CHECKS["C11"]["classes"] + ["context-in-teardown"]
+
+# --- repair D28: a fetch superseded while it is finishing delivers nothing (mode resourceself): Props/C15Self
+CHECKS["C15"]["lean_modules"] = CHECKS["C15"]["lean_modules"] + ["SycVerif.Props.C15Self"]
+CHECKS["C15"]["theorems"] += [AS + n for n in ["C15_superseded_while_finishing", "C15_superseded_while_finishing_obs"]]
+CHECKS["C15"]["status"] += ("; a fetch that is superseded WHILE it is finishing (its own last step changes the dependency; repair D28, mode resourceself): "
+    "in the machine the change comes first, and the completion of the superseded fetch changes nothing (C15_superseded_while_finishing)")
